@@ -47,7 +47,7 @@ def value_specs(p, h):
             elif pl == "all-conflict":
                 at[ATTR10[a]] = AVAL[a][i % 3]
         if p["vextra"] and i == 0:
-            at["checksum"] = "crc32$" + h               # a text of its own per Property: every drop has to be recorded, not one of them
+            at["checksum"] = "crc32--$" + h               # a text of its own per Property: every drop has to be recorded, not one of them
         if p["vtext"] == "blankfirst" and i == 0 and "type" not in at:
             at["type"] = "string"
         out.append((text, at))
@@ -229,7 +229,7 @@ def log_facts(g, log):
                     for i in range(1, g[h]["nvals"]):
                         ok = ok and has(tag, "already exported", "'%s'" % AVAL[a][i % 3])
                 return ok
-            out[h] = {"unnamed": has("without", "name"), "extra": has("synonym"), "vextra": has("checksum", "crc32$" + h),
+            out[h] = {"unnamed": has("without", "name"), "extra": has("synonym"), "vextra": has("checksum", "crc32--$" + h),
                       "unit": conflict("unit", "unit"), "dtype": conflict("dtype", "type"),
                       "uncertainty": conflict("uncertainty", "uncertainty"), "value_origin": conflict("filename", "filename"),
                       "definition": conflict("definition", "definition"), "reference": conflict("reference", "reference")}
